@@ -18,9 +18,15 @@ def gen_value(rng, kinds=VALUE_KINDS):
         n = rng.choice([0, 1, 2, 5, 20, 127, 128, 300])
         return (kind, bytes(rng.getrandbits(8) for _ in range(n)))
     if kind == "oid":
+        if rng.random() < 0.08:
+            return (kind, ())  # the zero-length "null OID" (06 00) some agents send
+        if rng.random() < 0.05:
+            return (kind, (0, 0))
         n = rng.randint(0, 6)
         return (kind, (1, 3) + tuple(rng.choice(SUBID_POOL) for _ in range(n)))
     if kind == "ip":
+        if rng.random() < 0.1:
+            return (kind, b"\x00\x00\x00\x00")
         return (kind, bytes(rng.getrandbits(8) for _ in range(4)))
     if kind in ("c32", "g32", "tt"):
         return (kind, rng.choice([0, 1, 127, 128, 2**31 - 1, 2**31, 2**32 - 1, rng.randint(0, 2**32 - 1)]))
@@ -109,6 +115,14 @@ def gen_walk_db(rng, base, roots, sizes=SIZE_POOL, kinds=VALUE_KINDS):
         cand = r[:-1] + (max(r[-1] + rng.choice((-1, 1, 2)), 0),) + gen_suffix(rng)
         if not any(is_prefix(x, cand) for x in roots):
             db[cand] = gen_value(rng, kinds)
+    if rng.random() < 0.3:
+        # siblings whose number starts with the decimal digits of a root's last arc
+        # (1.3.9 vs 1.3.90 / 1.3.91.x): outside the root, but a string-prefix match
+        r = rng.choice(roots)
+        for d in rng.sample(range(10), 2):
+            cand = r[:-1] + (r[-1] * 10 + d,) + gen_suffix(rng)
+            if not any(is_prefix(x, cand) for x in roots):
+                db[cand] = gen_value(rng, kinds)
     if rng.random() < 0.5:
         # something after everything
         db[(1, 3) + (2**32 - 1, 1)] = gen_value(rng, kinds)
@@ -150,4 +164,12 @@ def gen_table(rng, max_cols=6, max_rows=8):
         db[table[:-1] + (table[-1] - 1, 7)] = ("int", 111) if table[-1] > 0 else ("int", 0)
     if rng.random() < 0.8:
         db[table[:-1] + (table[-1] + 1, 1, 1, 1)] = ("int", 222)
+    if rng.random() < 0.5:
+        # a later sibling table whose number starts with this table's decimal digits
+        # (X.2 vs X.21), holding cells with the SAME column/row indexes, and a short
+        # scalar X.20.0: all outside the table
+        sib = table[:-1] + (table[-1] * 10 + rng.randint(1, 9),)
+        for (c, r) in list(cells)[:6]:
+            db[sib + (1, c) + r] = ("int", 333)
+        db[table[:-1] + (table[-1] * 10, 0)] = ("int", 444)
     return table, entry, cells, db
